@@ -322,8 +322,30 @@ func Record(args []string) {
 	w := tr.NewWriter(*out)
 	sum := summary{Suite: "normalise", Mode: "record"}
 	seen := map[string]bool{}
-	for t := 1; t <= *n; t++ {
-		x := randInput(rng)
+	// deterministic part: numeric references around every value at which ReplaceEntities (or an HTML decoder) changes its
+	// treatment, decimal and hexadecimal, with and without ';', alone and next to text, in every entity-table configuration
+	var sweep []*input
+	for _, v := range []int{0, 1, 8, 9, 10, 13, 31, 32, 33, 34, 38, 39, 59, 60, 62, 96, 126, 127, 128, 129, 159, 160, 255, 256, 9999, 10000, 55295, 55296, 57343, 57344, 65533, 65535, 65536, 1114111, 1114112} {
+		for _, f := range []string{"&#%d;", "&#x%x;", "&#X%X;", "&#%d", "&#x%x", "&#0%d;", "&#x0%x;"} {
+			ref := fmt.Sprintf(f, v)
+			for _, ctx := range []string{"%s", "a%sb", "%s;", "&%s", "%s%s"} {
+				in := fmt.Sprintf(ctx, ref)
+				if ctx == "%s%s" {
+					in = ref + ref
+				}
+				for cfg := 0; cfg < nCfg; cfg++ {
+					sweep = append(sweep, &input{Kind: "ent", In: []byte(in), Cfg: cfg})
+				}
+			}
+		}
+	}
+	for t := 1; t <= *n+len(sweep); t++ {
+		var x *input
+		if t <= len(sweep) {
+			x = sweep[t-1]
+		} else {
+			x = randInput(rng)
+		}
 		if x.Kind == "attr" || x.Kind == "cdata" {
 			x.In = bytes.ReplaceAll(x.In, []byte{0}, nil) // the statement excludes NUL
 		}
